@@ -2,3 +2,6 @@
 import PyXABProofs.Generated.Geometry
 import PyXABProofs.Props.C02
 import PyXABProofs.Props.C03
+import PyXABProofs.Props.C04
+import PyXABProofs.Props.C06
+import PyXABProofs.Props.C05
